@@ -1,17 +1,47 @@
-//! C15 - not built yet.
-use crate::engine::{PropertyInfo, RunCtx};
+//! C15 - formatting never changes the program and is idempotent.
+//!
+//! Texts (corpus .st files from /repo, generated programs, mutated programs, mixed
+//! comment/pragma/string lines, CRLF, tabs, long lines, unterminated tokens, non-ASCII) x
+//! formatting configurations (request options, client settings, vendor profile of a scratch
+//! workspace's trust-lsp.toml) x line ranges / on-type positions are sent to the real
+//! `trust-lsp` binary (`formatting`, `rangeFormatting`, `onTypeFormatting`) and, for the web
+//! IDE's own formatter, to `WebIdeState::format_source`. Oracle via `trust_syntax::lex`:
+//! the formatted text has the same sequence of non-trivia tokens (keywords compared
+//! case-insensitively) and the same comments, pragmas and string literals in the same
+//! order; formatting the formatted text changes nothing; range / on-type edits are in
+//! bounds, do not overlap and applying them preserves the token sequence.
+
+use std::cell::{Cell, RefCell};
+use std::path::PathBuf;
+
+use proptest::prelude::*;
+use serde::{Deserialize, Serialize};
+use serde_json::{json, Value as J};
+use trust_syntax::lexer::{lex, TokenKind};
+
+use super::c14::lspc::{
+    self, line_starts, offset_to_position, settle, LspError, Pool, Server,
+    StartOpts,
+};
+use super::c14::{clip, exact_offset, pos_of};
+use crate::engine::tape::{tape_strategy, Reader, Tape};
+use crate::engine::{Probe, PropertyInfo, RunCtx};
 
 pub fn info() -> PropertyInfo {
     PropertyInfo {
         id: "C15",
         level: "exploration",
-        rule: "not built yet",
-        assumptions: &[],
-        workers_quick: 1,
-        workers_thorough: 1,
+        rule: "case = source text (corpus file from /repo, generated program, or either after 1-5 mutations: joined/split lines, inserted comments/pragmas/strings, removed/added blanks, token delete/duplicate/swap/replace, CRLF/mixed endings, tabs, long argument lists, unterminated tokens, stray non-ASCII) x formatting configuration (tabSize/insertSpaces, client settings indentWidth/insertSpaces/keywordCase/spacingStyle/endKeywordStyle/alignVarDecls/alignAssignments/maxLineLength, vendor profile from a scratch workspace trust-lsp.toml) x up to 2 line ranges and 2 on-type positions, through textDocument/formatting, rangeFormatting, onTypeFormatting of the real trust-lsp binary, plus WebIdeState::format_source on the same texts; non-trivial = formatting changed the text (document), or a range/on-type request returned a non-empty edit; distinct by SHA-256 of (text, configuration, request)",
+        assumptions: &[
+            "token sequences are compared with trust_syntax::lex (the toolchain's own lexer): non-trivia tokens by kind and text, keyword text case-insensitively; comments and pragmas are compared after collapsing whitespace runs (re-indenting the continuation lines of a block comment is layout, not content); string literals exactly",
+            "line terminators LF and CRLF (the formatter normalises a mixed document to CRLF; that is layout)",
+            "texts up to 12 KB; formatter configuration reaches the server through workspace/didChangeConfiguration (section trust-lsp/stLsp/trust_lsp . format|formatting) and trust-lsp.toml [project] vendor_profile - initializationOptions are not read by the server",
+        ],
+        workers_quick: 8,
+        workers_thorough: 8,
         address_space_limit: 0,
-        watchdog_quick_s: 600,
-        watchdog_thorough_s: 3600,
+        watchdog_quick_s: 900,
+        watchdog_thorough_s: 7200,
         run,
     }
 }
@@ -21,6 +51,1025 @@ pub fn helper(_args: &[String]) -> Option<i32> {
     None
 }
 
+// ---- case ------------------------------------------------------------------------------
+
+#[derive(Clone, Debug, Default, Serialize, Deserialize, PartialEq, Eq)]
+pub struct Settings {
+    /// name of the root section: 0 = "trust-lsp", 1 = "stLsp", 2 = "trust_lsp"
+    pub section: u8,
+    /// false = "format", true = "formatting"
+    pub alt_key: bool,
+    /// snake_case aliases instead of camelCase
+    pub snake: bool,
+    pub indent_width: Option<u32>,
+    pub insert_spaces: Option<bool>,
+    pub keyword_case: Option<String>,
+    pub align_var_decls: Option<bool>,
+    pub align_assignments: Option<bool>,
+    pub max_line_length: Option<u32>,
+    pub spacing_style: Option<String>,
+    pub end_keyword_style: Option<String>,
+}
+
+pub const PROFILES: &[&str] = &["", "codesys", "siemens", "beckhoff", "twincat", "mitsubishi", "gxworks3", "other"];
+
+#[derive(Clone, Debug, Serialize, Deserialize, PartialEq, Eq)]
+pub struct Cfg {
+    pub tab_size: u32,
+    pub insert_spaces: bool,
+    pub settings: Option<Settings>,
+    /// index into PROFILES (0 = workspace without trust-lsp.toml)
+    pub profile: u8,
+}
+
+#[derive(Clone, Debug, Serialize, Deserialize, PartialEq, Eq)]
+pub struct Case {
+    pub text: String,
+    pub cfg: Cfg,
+    /// (start line, start character, end line, end character)
+    pub ranges: Vec<(u32, u32, u32, u32)>,
+    /// (line, character, typed character)
+    pub ontype: Vec<(u32, u32, String)>,
+    /// generator class (label only)
+    #[serde(default)]
+    pub class: String,
+}
+
+impl Settings {
+    fn to_json(&self) -> J {
+        let key = |camel: &str, snake: &str| if self.snake { snake.to_string() } else { camel.to_string() };
+        let mut f = serde_json::Map::new();
+        if let Some(v) = self.indent_width {
+            f.insert(key("indentWidth", "indent_width"), json!(v));
+        }
+        if let Some(v) = self.insert_spaces {
+            f.insert(key("insertSpaces", "insert_spaces"), json!(v));
+        }
+        if let Some(v) = &self.keyword_case {
+            f.insert(key("keywordCase", "keyword_case"), json!(v));
+        }
+        if let Some(v) = self.align_var_decls {
+            f.insert(key("alignVarDecls", "align_var_decls"), json!(v));
+        }
+        if let Some(v) = self.align_assignments {
+            f.insert(key("alignAssignments", "align_assignments"), json!(v));
+        }
+        if let Some(v) = self.max_line_length {
+            f.insert(key("maxLineLength", "max_line_length"), json!(v));
+        }
+        if let Some(v) = &self.spacing_style {
+            f.insert(key("spacingStyle", "spacing_style"), json!(v));
+        }
+        if let Some(v) = &self.end_keyword_style {
+            f.insert(key("endKeywordStyle", "end_keyword_style"), json!(v));
+        }
+        let section = ["trust-lsp", "stLsp", "trust_lsp"][self.section as usize % 3];
+        let fkey = if self.alt_key { "formatting" } else { "format" };
+        json!({ section: { fkey: J::Object(f) } })
+    }
+}
+
+// ---- generators ------------------------------------------------------------------------------
+
+fn gen_cfg(r: &mut Reader) -> Cfg {
+    let tab_size = *r.choose(&[4u32, 2, 1, 8]);
+    let insert_spaces = !r.chance(1, 4) || r.exhausted();
+    let settings = if r.weighted(&[1, 3]) == 1 {
+        let opt_bool = |r: &mut Reader| match r.pick(3) {
+            0 => None,
+            1 => Some(true),
+            _ => Some(false),
+        };
+        Some(Settings {
+            section: r.weighted(&[6, 1, 1]) as u8,
+            alt_key: r.weighted(&[5, 1]) == 1,
+            snake: r.weighted(&[4, 1]) == 1,
+            indent_width: *r.choose(&[None, Some(4), Some(2), Some(1), Some(8), Some(0)]),
+            insert_spaces: opt_bool(r),
+            keyword_case: r
+                .choose(&[None, Some("upper"), Some("lower"), Some("preserve"), Some("UPPER")])
+                .map(str::to_string),
+            align_var_decls: opt_bool(r),
+            align_assignments: opt_bool(r),
+            max_line_length: *r.choose(&[None, Some(40), Some(20), Some(80), Some(30), Some(120), Some(0), Some(20)]),
+            spacing_style: r
+                .choose(&[None, Some("compact"), Some("spaced"), Some("tight")])
+                .map(str::to_string),
+            end_keyword_style: r
+                .choose(&[None, Some("indented"), Some("aligned"), Some("indent")])
+                .map(str::to_string),
+        })
+    } else {
+        None
+    };
+    let profile = r.weighted(&[6, 2, 3, 1, 1, 1, 1, 1]) as u8;
+    Cfg { tab_size, insert_spaces, settings, profile }
+}
+
+const DECLS: &[&str] = &[
+    "x : INT;",
+    "y:INT:=5;",
+    "longer_name : REAL := 1.5;",
+    "b , c : BOOL;",
+    "a : ARRAY[0..3] OF INT;",
+    "arr2 : ARRAY [ 1 .. 2 , 0..1 ] OF REAL := [1.0, 2.0, 3.0, 4.0];",
+    "s : STRING[10] := 'a b  c';",
+    "w : WSTRING := \"x, y\";",
+    "t : TIME := T#5s;",
+    "d : DATE := D#2024-01-02;",
+    "i AT %IX0.0 : BOOL;",
+    "p : POINTER TO INT;",
+    "r : REF_TO INT;",
+    "e : (Red, Green) := Red;",
+    "sub : INT (0..100);",
+    "k : INT := -1;",
+    "h : WORD := 16#FF;",
+    "fb : TON;",
+    "x1 : INT; // comment",
+    "(* c *) z : INT;",
+    "{attr} q : INT;",
+    "m : ARRAY[0..1] OF STRING := ['a,b', 'c'];",
+];
+
+const STMTS: &[&str] = &[
+    "x:=x+1;",
+    "x := -x;",
+    "x := x - -1;",
+    "x := a[1] + a [ 2 ];",
+    "y := x ** 2;",
+    "b := NOT b AND (x > 1) OR c;",
+    "b := x <= 3 AND x >= 1 AND x <> 2;",
+    "p^ := 1;",
+    "x := p^;",
+    "fb(IN := b, PT := T#1s);",
+    "fb ( IN:=b , PT:=T#1s , Q=>c );",
+    "x := F(1, 2, 3, 4, 5, 6, 7, 8, 9, 10, 11, 12, 13, 14, 15, 16, 17, 18, 19, 20);",
+    "x := MAX(x, y, 3); y := MIN(1,2);",
+    "s := 'it$'s, ok';",
+    "s := CONCAT('a,b', 'c;d', 'e := f');",
+    "x := INT#5 + INT#16#7F;",
+    "t := T#1h2m + TIME#5ms;",
+    "IF x>1 THEN y:=1; ELSIF x=2 THEN y:=2; ELSE y:=3; END_IF;",
+    "IF b THEN\nx := 1;\nELSIF c THEN\nx := 2;\nELSE\nx := 3;\nEND_IF;",
+    "CASE x OF 1: y:=1; 2,3: y:=2; 4..6: y:=3; ELSE y:=0; END_CASE;",
+    "CASE x OF\n1:\ny := 1;\n2, 3:\ny := 2;\nELSE\ny := 0;\nEND_CASE;",
+    "FOR x := 1 TO 10 BY 2 DO\ny := y + x;\nEND_FOR;",
+    "WHILE x < 3 DO\nx := x + 1;\nEND_WHILE;",
+    "REPEAT\nx := x - 1;\nUNTIL x <= 0\nEND_REPEAT;",
+    "x := 1; // trailing",
+    "(* lead *) x := 2;",
+    "x := (* mid *) 3;",
+    "{pragma} x := 4;",
+    "x := 1; (* multi\n   line *) y := 2;",
+    ";",
+    "RETURN;",
+    "x := y MOD 3;",
+    "x := %IW4;",
+    "b := %IX0.0;",
+    "x := 1_000;",
+    "r1 := 1.5e-3;",
+    "x := a[x+1];",
+    "THIS^.x := 1;",
+    "x := fb.ET;",
+    "lng := SomeFunctionName(first_argument := 1, second_argument := 2, third_argument := 3, fourth := 4);",
+    "x := 1; y := 2; z := 3;",
+    "long_target_name := 1;\nx := 2;\nyy := 3;",
+    "x := SEL(b, 'a, b', \"c, d\");",
+    "x := F(a, (* c, d *) b, c);",
+    "x := F(a, b, // c\nc);",
+    "e := E#Red;",
+    "x := y / 2 * 3 - 4 + 5;",
+    "b := x = 1 OR x <> 2 XOR c & b;",
+    "x := LIMIT(0, x, 100);",
+    "y := MUX(x, 1, 2, 3, 4);",
+    "fb(IN := x > 1, PT := T#100ms, Q => b, ET => t);",
+    "a[1] := MAX(a[0], a[2], a[3]);",
+    "x := F(G(1, 2), H(3, 4), a[1], -5);",
+];
+
+/// Statements that `maxLineLength` wraps (a comma, no comment / string / pragma).
+const WRAPPABLE: &[&str] = &[
+    "x := LIMIT(0, x, 100);",
+    "fb(IN := x > 1, PT := T#100ms, Q => b, ET => t);",
+    "x := F(1, 2, 3, 4, 5, 6, 7, 8, 9, 10, 11, 12, 13, 14, 15, 16, 17, 18, 19, 20);",
+    "lng := SomeFunctionName(first_argument := 1, second_argument := 2, third_argument := 3, fourth := 4);",
+    "IF b THEN x := MAX(x, y, 3); END_IF;",
+    "CASE x OF 1, 2: y := MIN(1, 2); END_CASE;",
+];
+
+fn gen_program(r: &mut Reader) -> String {
+    let mut s = String::new();
+    let pous = 1 + r.pick(2);
+    for p in 0..pous {
+        match r.weighted(&[5, 2, 2, 1]) {
+            0 | 1 => {
+                let (kw, end) = if r.flag() {
+                    ("FUNCTION_BLOCK", "END_FUNCTION_BLOCK")
+                } else {
+                    ("PROGRAM", "END_PROGRAM")
+                };
+                s.push_str(&format!("{kw} P{p}\n"));
+                for _ in 0..1 + r.pick(2) {
+                    s.push_str(*r.choose(&["VAR\n", "VAR_INPUT\n", "VAR CONSTANT\n", "VAR_TEMP\n", "VAR RETAIN\n"]));
+                    for _ in 0..1 + r.pick(5) {
+                        s.push_str(*r.choose(DECLS));
+                        s.push('\n');
+                    }
+                    s.push_str("END_VAR\n");
+                }
+                for _ in 0..1 + r.pick(8) {
+                    if r.weighted(&[3, 1, 1]) == 1 {
+                        s.push_str(*r.choose(WRAPPABLE));
+                    } else {
+                        s.push_str(*r.choose(STMTS));
+                    }
+                    s.push('\n');
+                }
+                s.push_str(end);
+                s.push('\n');
+            }
+            2 => {
+                s.push_str(&format!("FUNCTION F{p} : INT\nVAR_INPUT\n"));
+                s.push_str(*r.choose(DECLS));
+                s.push_str("\nEND_VAR\n");
+                for _ in 0..1 + r.pick(3) {
+                    s.push_str(*r.choose(STMTS));
+                    s.push('\n');
+                }
+                s.push_str(&format!("F{p} := 1;\nEND_FUNCTION\n"));
+            }
+            _ => {
+                s.push_str(*r.choose(&[
+                    "TYPE E : (A, B, C); END_TYPE\n",
+                    "TYPE\nS : STRUCT\nf : INT;\ng:REAL:=1.0;\nEND_STRUCT;\nEND_TYPE\n",
+                    "TYPE T1 : ARRAY[0..1] OF INT; END_TYPE\n",
+                    "CONFIGURATION C\nRESOURCE R ON PLC\nTASK T(INTERVAL := T#10ms, PRIORITY := 1);\nPROGRAM I WITH T : P0;\nEND_RESOURCE\nEND_CONFIGURATION\n",
+                    "NAMESPACE N\nFUNCTION G : INT\nG := 1;\nEND_FUNCTION\nEND_NAMESPACE\n",
+                    "INTERFACE I1\nMETHOD M : INT\nEND_METHOD\nEND_INTERFACE\n",
+                ]));
+            }
+        }
+    }
+    s
+}
+
+fn floor_boundary(s: &str, mut i: usize) -> usize {
+    if i > s.len() {
+        i = s.len();
+    }
+    while !s.is_char_boundary(i) {
+        i -= 1;
+    }
+    i
+}
+
+fn tokens_of(text: &str) -> Vec<(TokenKind, usize, usize)> {
+    lex(text)
+        .into_iter()
+        .map(|t| (t.kind, usize::from(t.range.start()), usize::from(t.range.end())))
+        .collect()
+}
+
+const INSERTS: &[&str] = &[
+    " (* c *) ", " // c\n", " {p} ", " 'a, b' ", "(* a\n b *)", " (* x := 1; *) ", "{ multi\n line }", " \"w\" ",
+    " /* c */ ", " (* nested (* c *) *) ", "// only\n",
+];
+const BREAKERS: &[&str] = &["'", "\"", "(*", "{", "*)", "}", "$", "\u{a0}", "\u{e9}", "\u{1F600}", "\u{c}", "#", "..", "%", "/*"];
+
+fn mutate(text: &mut String, r: &mut Reader, labels: &mut Vec<&'static str>) {
+    let c = super::c12::corpus();
+    let toks = tokens_of(text);
+    if toks.is_empty() {
+        return;
+    }
+    match r.pick(14) {
+        0 => {
+            // join two lines (several statements per line)
+            let nl: Vec<usize> = text.match_indices('\n').map(|(i, _)| i).collect();
+            if !nl.is_empty() {
+                let i = nl[r.pick(nl.len())];
+                let s = if i > 0 && text.as_bytes()[i - 1] == b'\r' { i - 1 } else { i };
+                text.replace_range(s..i + 1, " ");
+                labels.push("mut:join-lines");
+            }
+        }
+        1 => {
+            // split a line at a token boundary
+            let (_, s, _) = toks[r.pick(toks.len())];
+            text.insert(s, '\n');
+            labels.push("mut:split-line");
+        }
+        2 => {
+            // insert a comment / pragma / string at a token boundary
+            let (_, s, _) = toks[r.pick(toks.len())];
+            text.insert_str(s, *r.choose(INSERTS));
+            labels.push("mut:insert-trivia");
+        }
+        3 => {
+            // remove the blank between two tokens when that does not change the lexing
+            let ws: Vec<&(TokenKind, usize, usize)> = toks
+                .iter()
+                .filter(|t| t.0 == TokenKind::Whitespace && !text[t.1..t.2].contains('\n'))
+                .collect();
+            if !ws.is_empty() {
+                let before = signature(text);
+                let &(_, s, e) = ws[r.pick(ws.len())];
+                let mut cand = text.clone();
+                cand.replace_range(s..e, "");
+                if signature(&cand) == before {
+                    *text = cand;
+                    labels.push("mut:tighten");
+                }
+            }
+        }
+        4 => {
+            // widen blanks / trailing blanks / tabs
+            let (_, s, _) = toks[r.pick(toks.len())];
+            text.insert_str(s, *r.choose(&["  ", "\t", "   \t ", " "]));
+            labels.push("mut:blanks");
+        }
+        5 => {
+            let (_, s, e) = toks[r.pick(toks.len())];
+            text.replace_range(s..e, "");
+            labels.push("mut:delete-token");
+        }
+        6 => {
+            let (_, s, e) = toks[r.pick(toks.len())];
+            let t = text[s..e].to_string();
+            text.insert_str(e, &t);
+            labels.push("mut:duplicate-token");
+        }
+        7 => {
+            let a = toks[r.pick(toks.len())];
+            let b = toks[r.pick(toks.len())];
+            let (a, b) = if a.1 <= b.1 { (a, b) } else { (b, a) };
+            if a.2 <= b.1 {
+                let ta = text[a.1..a.2].to_string();
+                let tb = text[b.1..b.2].to_string();
+                text.replace_range(b.1..b.2, &ta);
+                text.replace_range(a.1..a.2, &tb);
+                labels.push("mut:swap-tokens");
+            }
+        }
+        8 => {
+            let (_, s, e) = toks[r.pick(toks.len())];
+            let v = &c.vocab[r.pick(c.vocab.len())];
+            text.replace_range(s..e, v);
+            labels.push("mut:replace-token");
+        }
+        9 => {
+            // unterminated token / stray character
+            let (_, s, _) = toks[r.pick(toks.len())];
+            text.insert_str(s, *r.choose(BREAKERS));
+            labels.push("mut:breaker");
+        }
+        10 => {
+            // line endings
+            let unix = text.replace("\r\n", "\n");
+            if r.flag() {
+                *text = unix.replace('\n', "\r\n");
+                labels.push("mut:crlf");
+            } else {
+                let mut out = String::new();
+                for l in unix.split_inclusive('\n') {
+                    if l.ends_with('\n') && r.flag() {
+                        out.push_str(&l[..l.len() - 1]);
+                        out.push_str("\r\n");
+                    } else {
+                        out.push_str(l);
+                    }
+                }
+                *text = out;
+                labels.push("mut:mixed-eol");
+            }
+        }
+        11 => {
+            // splice a slice of another corpus file
+            let other = &c.files[r.pick(c.files.len())];
+            let s = floor_boundary(other, r.pick(other.len() + 1));
+            let e = floor_boundary(other, (s + r.pick(300)).min(other.len()));
+            let at = floor_boundary(text, r.pick(text.len() + 1));
+            text.insert_str(at, &other[s..e.max(s)]);
+            labels.push("mut:splice");
+        }
+        12 => {
+            let at = floor_boundary(text, r.pick(text.len() + 1));
+            text.truncate(at);
+            labels.push("mut:truncate");
+        }
+        _ => {
+            // drop the final newline / add blank lines
+            if text.ends_with('\n') && r.flag() {
+                text.pop();
+                if text.ends_with('\r') {
+                    text.pop();
+                }
+                labels.push("mut:no-final-newline");
+            } else {
+                let (_, s, _) = toks[r.pick(toks.len())];
+                text.insert_str(s, "\n\n");
+                labels.push("mut:blank-lines");
+            }
+        }
+    }
+}
+
+fn gen_case(tape: &Tape) -> Case {
+    let c = super::c12::corpus();
+    let mut r = Reader::new(tape);
+    let cfg = gen_cfg(&mut r);
+    let mut labels: Vec<&'static str> = Vec::new();
+    let (mut text, class) = match r.weighted(&[4, 3, 2]) {
+        0 => (gen_program(&mut r), "generated"),
+        1 => {
+            let mut pick = None;
+            for _ in 0..6 {
+                let f = &c.files[r.pick(c.files.len())];
+                if f.len() <= 8_000 {
+                    pick = Some(f.clone());
+                    break;
+                }
+            }
+            (pick.unwrap_or_else(|| gen_program(&mut r)), "corpus")
+        }
+        _ => {
+            let mode = r.weighted(&[5, 3, 2]);
+            (super::c14::gen_text(&mut r, mode), "unicode-fragments")
+        }
+    };
+    let n_mut = r.weighted(&[3, 3, 2, 1, 1, 1]);
+    for _ in 0..n_mut {
+        mutate(&mut text, &mut r, &mut labels);
+        if text.len() > 12_000 {
+            let at = floor_boundary(&text, 12_000);
+            text.truncate(at);
+        }
+    }
+    // no lone CR (LF and CRLF documents only)
+    if text.replace("\r\n", "").contains('\r') {
+        text = text.replace("\r\n", "\n").replace('\r', "").replace('\n', "\r\n");
+    }
+    let lines = line_starts(&text).len() as u32;
+    let mut ranges = Vec::new();
+    for _ in 0..r.weighted(&[1, 3, 2]) {
+        let sl = r.pick(lines as usize) as u32;
+        let el = match r.weighted(&[4, 3, 2, 1]) {
+            0 => sl,
+            1 => (sl + 1 + r.pick(3) as u32).min(lines.saturating_sub(1)).max(sl),
+            2 => lines.saturating_sub(1).max(sl),
+            _ => sl + r.pick(4) as u32, // may lie beyond the document
+        };
+        let sc = if r.flag() { 0 } else { r.pick(12) as u32 };
+        let ec = match r.pick(3) {
+            0 => 0,
+            1 => r.pick(40) as u32,
+            _ => 10_000,
+        };
+        ranges.push((sl, sc, el, ec));
+    }
+    let mut ontype = Vec::new();
+    let semis: Vec<usize> = text.match_indices(';').map(|(i, _)| i + 1).collect();
+    for _ in 0..r.weighted(&[1, 3, 2]) {
+        if !semis.is_empty() && r.flag() {
+            let off = semis[r.pick(semis.len())];
+            let (l, ch) = offset_to_position(&text, off);
+            ontype.push((l, ch, ";".to_string()));
+        } else {
+            let l = r.pick(lines as usize) as u32;
+            ontype.push((l, 0, "\n".to_string()));
+        }
+    }
+    let mut class = class.to_string();
+    if !labels.is_empty() {
+        class.push_str("+mutated");
+    }
+    Case { text, cfg, ranges, ontype, class }
+}
+
+// ---- oracle -------------------------------------------------------------------------------------
+
+#[derive(Debug, Clone)]
+pub struct Sig {
+    /// non-trivia token texts (keyword text upper-cased). The kind is not compared: the
+    /// property speaks of token text, and the lexer reports the text `D#` with different
+    /// kinds depending on what follows it.
+    pub toks: Vec<String>,
+    /// comments, pragmas (whitespace collapsed) and string literals (exact), in order
+    pub marks: Vec<(TokenKind, String)>,
+    /// the text has Error tokens (label only; not compared)
+    pub has_error: bool,
+}
+
+impl PartialEq for Sig {
+    fn eq(&self, other: &Sig) -> bool {
+        self.toks == other.toks && self.marks == other.marks
+    }
+}
+
+fn collapse_ws(s: &str) -> String {
+    s.split_whitespace().collect::<Vec<_>>().join(" ")
+}
+
+pub fn signature(text: &str) -> Sig {
+    let mut toks = Vec::new();
+    let mut marks = Vec::new();
+    let mut has_error = false;
+    for t in lex(text) {
+        let s = &text[usize::from(t.range.start())..usize::from(t.range.end())];
+        match t.kind {
+            TokenKind::Whitespace => {}
+            TokenKind::LineComment | TokenKind::BlockComment | TokenKind::Pragma => {
+                marks.push((t.kind, collapse_ws(s)));
+            }
+            // An unterminated comment, pragma or string is one Error token that runs to the
+            // end of the line or file; blanks inside it are layout like blanks inside a comment.
+            // (Only the lexer's own white space: a no-break space is an Error token itself.)
+            TokenKind::Error => {
+                has_error = true;
+                toks.push(s.split([' ', '\t', '\r', '\n']).filter(|p| !p.is_empty()).collect::<Vec<_>>().join(" "))
+            }
+            k => {
+                if matches!(k, TokenKind::StringLiteral | TokenKind::WideStringLiteral) {
+                    marks.push((k, s.to_string()));
+                }
+                let text = if k.is_keyword() { s.to_ascii_uppercase() } else { s.to_string() };
+                toks.push(text);
+            }
+        }
+    }
+    Sig { toks, marks, has_error }
+}
+
+fn sig_diff(a: &Sig, b: &Sig) -> String {
+    fn first<T: PartialEq + std::fmt::Debug>(what: &str, x: &[T], y: &[T]) -> Option<String> {
+        if x == y {
+            return None;
+        }
+        let i = x.iter().zip(y.iter()).position(|(p, q)| p != q).unwrap_or(x.len().min(y.len()));
+        let ctx = |v: &[T]| {
+            let lo = i.saturating_sub(3);
+            let hi = (i + 3).min(v.len());
+            format!("{:?}", &v[lo..hi])
+        };
+        Some(format!(
+            "{what} differ at index {i} (original has {}, result has {}): original ...{} vs result ...{}",
+            x.len(),
+            y.len(),
+            clip(&ctx(x), 260),
+            clip(&ctx(y), 260)
+        ))
+    }
+    first("non-trivia tokens", &a.toks, &b.toks)
+        .or_else(|| first("comments/pragmas/string literals", &a.marks, &b.marks))
+        .unwrap_or_default()
+}
+
+/// Check the edits (in bounds, ordered, non-overlapping) and apply them.
+fn apply_edits(text: &str, edits: &J, what: &str) -> Result<(String, bool), String> {
+    if edits.is_null() {
+        return Ok((text.to_string(), false));
+    }
+    if let Some(e) = edits.get("$error") {
+        return Err(format!("{what} answered with a JSON-RPC error: {e}"));
+    }
+    let Some(list) = edits.as_array() else {
+        return Err(format!("{what} answered with something that is not an edit list: {}", clip(&edits.to_string(), 200)));
+    };
+    let mut spans: Vec<(usize, usize, &str)> = Vec::new();
+    for e in list {
+        let st = e.pointer("/range/start").and_then(pos_of);
+        let en = e.pointer("/range/end").and_then(pos_of);
+        let new_text = e.get("newText").and_then(J::as_str);
+        let (Some(st), Some(en), Some(new_text)) = (st, en, new_text) else {
+            return Err(format!("{what}: malformed TextEdit {}", clip(&e.to_string(), 200)));
+        };
+        let so = exact_offset(text, st.0, st.1);
+        let eo = exact_offset(text, en.0, en.1);
+        let (Some(so), Some(eo)) = (so, eo) else {
+            return Err(format!(
+                "{what}: edit range {}:{}-{}:{} is out of bounds of the document ({} lines)",
+                st.0,
+                st.1,
+                en.0,
+                en.1,
+                line_starts(text).len()
+            ));
+        };
+        if so > eo {
+            return Err(format!("{what}: edit range {}:{}-{}:{} ends before it starts", st.0, st.1, en.0, en.1));
+        }
+        spans.push((so, eo, new_text));
+    }
+    spans.sort_by_key(|s| (s.0, s.1));
+    for w in spans.windows(2) {
+        if w[0].1 > w[1].0 {
+            return Err(format!("{what}: edits overlap ({}..{} and {}..{})", w[0].0, w[0].1, w[1].0, w[1].1));
+        }
+    }
+    let mut out = text.to_string();
+    let mut changed = false;
+    for (s, e, t) in spans.into_iter().rev() {
+        if &out[s..e] != t {
+            changed = true;
+        }
+        out.replace_range(s..e, t);
+    }
+    Ok((out, changed))
+}
+
+const F20_KEY: &str = "F20-range-format-line-index";
+const WRAP_KEY: &str = "F20b-wrapped-output-not-stable";
+const LEXKIND_KEY: &str = "C15-lexer-kind-unstable";
+
+// ---- server side ------------------------------------------------------------------------------------
+
+struct Env {
+    pool: Pool,
+    scratch: PathBuf,
+    worker: usize,
+    counter: Cell<u64>,
+    f20_open: bool,
+    wrap_open: bool,
+    lexkind_open: bool,
+    web: RefCell<Option<(trust_runtime::web::ide::WebIdeState, String, u32)>>,
+}
+
+fn profile_dir(scratch: &std::path::Path, i: usize) -> PathBuf {
+    scratch.join(format!("p{i}"))
+}
+
+fn prepare_scratch(scratch: &std::path::Path) -> std::io::Result<Vec<String>> {
+    let mut roots = Vec::new();
+    for (i, p) in PROFILES.iter().enumerate() {
+        let d = profile_dir(scratch, i);
+        std::fs::create_dir_all(&d)?;
+        if !p.is_empty() {
+            std::fs::write(d.join("trust-lsp.toml"), format!("[project]\nvendor_profile = \"{p}\"\n"))?;
+        }
+        roots.push(format!("file://{}", d.display()));
+    }
+    // one indexed file, so that the server reports the end of its workspace scan
+    std::fs::write(profile_dir(scratch, PROFILES.len() - 1).join("seed.st"), "(* seed *)\n")?;
+    Ok(roots)
+}
+
+struct Obs {
+    full: J,
+    ranges: Vec<J>,
+    ontype: Vec<J>,
+    /// formatting of the formatted text (None when the first answer could not be applied)
+    again: Option<J>,
+}
+
+fn options(cfg: &Cfg) -> J {
+    json!({"tabSize": cfg.tab_size, "insertSpaces": cfg.insert_spaces})
+}
+
+fn observe(s: &mut Server, uri: &str, case: &Case) -> Result<Obs, LspError> {
+    let settings = case.cfg.settings.as_ref().map(Settings::to_json).unwrap_or(J::Null);
+    s.set_configuration(settings)?;
+    s.did_open(uri, 1, &case.text)?;
+    let opts = options(&case.cfg);
+    let full = s.request("textDocument/formatting", json!({"textDocument": {"uri": uri}, "options": opts}))?;
+    let mut ranges = Vec::new();
+    for (sl, sc, el, ec) in &case.ranges {
+        ranges.push(s.request(
+            "textDocument/rangeFormatting",
+            json!({"textDocument": {"uri": uri}, "options": opts,
+                   "range": {"start": {"line": sl, "character": sc}, "end": {"line": el, "character": ec}}}),
+        )?);
+    }
+    let mut ontype = Vec::new();
+    for (l, ch, typed) in &case.ontype {
+        ontype.push(s.request(
+            "textDocument/onTypeFormatting",
+            json!({"textDocument": {"uri": uri}, "options": opts,
+                   "position": {"line": l, "character": ch}, "ch": typed}),
+        )?);
+    }
+    let again = match apply_edits(&case.text, &full, "formatting") {
+        Ok((formatted, _)) => {
+            s.did_change(uri, 2, json!([{"text": formatted}]))?;
+            Some(s.request("textDocument/formatting", json!({"textDocument": {"uri": uri}, "options": opts}))?)
+        }
+        Err(_) => None,
+    };
+    s.did_change(uri, 3, json!([{"text": ""}]))?;
+    s.notify("textDocument/didClose", json!({"textDocument": {"uri": uri}}))?;
+    Ok(Obs { full, ranges, ontype, again })
+}
+
+fn start_opts(tag: &str, roots: &[String]) -> StartOpts {
+    let mut o = StartOpts::plain(tag);
+    if let Some(d) = o.scratch.take() {
+        let _ = std::fs::remove_dir_all(d); // C15 brings its own workspace folders
+    }
+    o.root_uri = roots.first().cloned();
+    o.workspace_folders = roots.to_vec();
+    // pull diagnostics: the server then analyses nothing on didOpen/didChange
+    o.capabilities = json!({"workspace": {"diagnostic": {"refreshSupport": true}}});
+    o.wait_for_index = true;
+    o
+}
+
+fn describe_cfg(cfg: &Cfg) -> String {
+    format!(
+        "options tabSize={} insertSpaces={}, settings {}, vendor profile {:?}",
+        cfg.tab_size,
+        cfg.insert_spaces,
+        cfg.settings.as_ref().map(|s| s.to_json().to_string()).unwrap_or_else(|| "none".into()),
+        PROFILES[cfg.profile as usize % PROFILES.len()]
+    )
+}
+
+fn check_lsp(case: &Case, probe: &mut Probe, env: &Env) -> Result<(), String> {
+    let text = &case.text;
+    if text.replace("\r\n", "").contains('\r') {
+        probe.label("skipped:lone-cr");
+        return Ok(());
+    }
+    let pi = case.cfg.profile as usize % PROFILES.len();
+    let k = env.counter.get();
+    env.counter.set(k + 1);
+    let uri = format!("file://{}/doc{}.st", profile_dir(&env.scratch, pi).display(), k % 4);
+    let was_ok = env.pool.infra().is_none();
+    let Some(obs) = settle(env.pool.with(|s| observe(s, &uri, case)))? else {
+        probe.label("skipped:infrastructure");
+        if was_ok {
+            // keep the case that was running when the infrastructure failed (diagnosis)
+            let path = crate::engine::verif_root().join("out/C15").join(format!("infra-case-w{}.json", env.worker));
+            let rec = json!({"property": "C15", "search": "lsp", "expect": "pass", "message": env.pool.infra(), "case": case});
+            let _ = std::fs::write(path, serde_json::to_string_pretty(&rec).unwrap_or_default());
+        }
+        return Ok(());
+    };
+
+    probe.label(format!("class={}", case.class));
+    probe.label(format!("profile={}", if PROFILES[pi].is_empty() { "none" } else { PROFILES[pi] }));
+    if let Some(s) = &case.cfg.settings {
+        if let Some(v) = &s.spacing_style {
+            probe.label(format!("cfg:spacing={v}"));
+        }
+        if let Some(v) = &s.keyword_case {
+            probe.label(format!("cfg:keywordCase={}", v.to_ascii_lowercase()));
+        }
+        if let Some(v) = s.max_line_length {
+            probe.label(format!("cfg:maxLineLength={v}"));
+        }
+        if let Some(v) = &s.end_keyword_style {
+            probe.label(format!("cfg:endKeyword={v}"));
+        }
+        if s.align_var_decls == Some(false) {
+            probe.label("cfg:alignVarDecls=off");
+        }
+        if s.align_assignments == Some(false) {
+            probe.label("cfg:alignAssignments=off");
+        }
+    } else {
+        probe.label("cfg:no-client-settings");
+    }
+    if !case.cfg.insert_spaces {
+        probe.label("cfg:tabs");
+    }
+    if text.contains("\r\n") {
+        probe.label("text:crlf");
+    }
+    let sig = signature(text);
+    if sig.has_error {
+        probe.label("text:has-error-tokens");
+    }
+    let ctx = |what: &str| format!("{what} with {}", describe_cfg(&case.cfg));
+    let mut key = serde_json::to_vec(&(text, &case.cfg)).unwrap_or_default();
+
+    // whole document
+    let (formatted, changed) = apply_edits(text, &obs.full, "formatting")?;
+    let fsig = signature(&formatted);
+    if fsig != sig {
+        return Err(format!("{}: {}", ctx("formatting changed the program"), sig_diff(&sig, &fsig)));
+    }
+    if changed {
+        probe.label("formatting:changed");
+        probe.nontrivial(&key);
+        probe.sample(json!({"class": case.class, "config": describe_cfg(&case.cfg), "text": clip(text, 200), "formatted": clip(&formatted, 200)}));
+    } else {
+        probe.label("formatting:unchanged");
+    }
+    let line_count_changed = line_starts(&formatted).len() != line_starts(text).len();
+    if line_count_changed {
+        probe.label("formatting:line-count-changed");
+    }
+    // idempotence
+    if let Some(again) = &obs.again {
+        let (twice, changed_again) = apply_edits(&formatted, again, "formatting (second pass)")?;
+        let kinds = |t: &str| lex(t).into_iter().filter(|k| k.kind != TokenKind::Whitespace).map(|k| k.kind).collect::<Vec<_>>();
+        if changed_again && env.lexkind_open && kinds(text) != kinds(&formatted) {
+            // open finding: the lexer gives the same token text another kind once the blanks
+            // around it change, and the formatter's spacing rules go by kind
+            probe.known(LEXKIND_KEY);
+            probe.excluded("C15-lexer-kind-unstable: idempotence where re-spacing changed a token's kind but not its text");
+        } else if changed_again && line_count_changed && env.wrap_open {
+            // open finding: the wrapped continuation lines are re-indented / re-aligned /
+            // re-split by the next pass
+            probe.known(WRAP_KEY);
+            probe.excluded("F20b: idempotence of a document that formatting wrapped (line count changed)");
+        } else if changed_again {
+            let at = formatted.bytes().zip(twice.bytes()).position(|(a, b)| a != b).unwrap_or(formatted.len().min(twice.len()));
+            let lo = floor_boundary(&formatted, at.saturating_sub(40));
+            return Err(format!(
+                "{}: first pass ...{:?}, second pass ...{:?}",
+                ctx("formatting is not idempotent"),
+                clip(&formatted[lo..], 120),
+                clip(twice.get(lo..).unwrap_or(""), 120)
+            ));
+        }
+    }
+    if line_count_changed && env.f20_open && (!case.ranges.is_empty() || !case.ontype.is_empty()) {
+        probe.excluded("F20: range/on-type formatting of a document whose line count formatting changes");
+        return Ok(());
+    }
+    // ranges
+    for (i, ans) in obs.ranges.iter().enumerate() {
+        let what = format!("rangeFormatting {:?}", case.ranges[i]);
+        let (applied, changed) = apply_edits(text, ans, &what)?;
+        let asig = signature(&applied);
+        if asig != sig {
+            return Err(format!("{}: {}", ctx(&format!("{what} changed the program")), sig_diff(&sig, &asig)));
+        }
+        if changed {
+            probe.label("range:edit");
+            key.extend_from_slice(format!("{:?}", case.ranges[i]).as_bytes());
+            probe.nontrivial(&key);
+        } else {
+            probe.label("range:no-edit");
+        }
+    }
+    for (i, ans) in obs.ontype.iter().enumerate() {
+        let what = format!("onTypeFormatting {:?}", case.ontype[i]);
+        let (applied, changed) = apply_edits(text, ans, &what)?;
+        let asig = signature(&applied);
+        if asig != sig {
+            return Err(format!("{}: {}", ctx(&format!("{what} changed the program")), sig_diff(&sig, &asig)));
+        }
+        if changed {
+            probe.label("ontype:edit");
+            key.extend_from_slice(format!("{:?}", case.ontype[i]).as_bytes());
+            probe.nontrivial(&key);
+        } else {
+            probe.label("ontype:no-edit");
+        }
+    }
+    Ok(())
+}
+
+// ---- web IDE formatter ---------------------------------------------------------------------------------
+
+fn check_web(text: &String, probe: &mut Probe, env: &Env) -> Result<(), String> {
+    use trust_runtime::web::ide::{IdeRole, WebIdeState};
+    if text.replace("\r\n", "").contains('\r') {
+        probe.label("skipped:lone-cr");
+        return Ok(());
+    }
+    let mut slot = env.web.borrow_mut();
+    // sessions expire after 15 minutes of real time: renew well before that
+    if slot.as_ref().map(|s| s.2 >= 2000).unwrap_or(true) {
+        let root = env.scratch.join("webide");
+        let _ = std::fs::create_dir_all(&root);
+        let _ = std::fs::write(root.join("main.st"), "PROGRAM Main\nEND_PROGRAM\n");
+        let state = WebIdeState::new(Some(root));
+        match state.create_session(IdeRole::Editor) {
+            Ok(sess) => *slot = Some((state, sess.token, 0)),
+            Err(e) => {
+                probe.label("skipped:web-session");
+                let _ = e;
+                return Ok(());
+            }
+        }
+    }
+    let (state, token, uses) = slot.as_mut().expect("web state");
+    *uses += 1;
+    let fmt = |content: &str| state.format_source(token, "main.st", Some(content.to_string()));
+    let first = match fmt(text) {
+        Ok(r) => r,
+        Err(e) => {
+            probe.label(format!("web:error:{:?}", e.kind()));
+            return Ok(());
+        }
+    };
+    let sig = signature(text);
+    let fsig = signature(&first.content);
+    if fsig != sig {
+        return Err(format!("WebIdeState::format_source changed the program: {}", sig_diff(&sig, &fsig)));
+    }
+    if first.changed != (first.content != *text) {
+        return Err("WebIdeState::format_source: `changed` flag disagrees with the content".into());
+    }
+    if first.content != *text {
+        probe.label("web:changed");
+        probe.nontrivial(text.as_bytes());
+    } else {
+        probe.label("web:unchanged");
+    }
+    match fmt(&first.content) {
+        Ok(second) => {
+            if second.content != first.content {
+                let a = &first.content;
+                let b = &second.content;
+                let at = a.bytes().zip(b.bytes()).position(|(x, y)| x != y).unwrap_or(a.len().min(b.len()));
+                let lo = floor_boundary(a, at.saturating_sub(40));
+                return Err(format!(
+                    "WebIdeState::format_source is not idempotent: first pass ...{:?}, second pass ...{:?}",
+                    clip(&a[lo..], 120),
+                    clip(b.get(lo..).unwrap_or(""), 120)
+                ));
+            }
+        }
+        Err(e) => {
+            probe.label(format!("web:error-second:{:?}", e.kind()));
+        }
+    }
+    Ok(())
+}
+
 fn run(ctx: &mut RunCtx) {
-    ctx.inconclusive("check not built yet");
+    let tier = ctx.tier;
+    if !lspc::lsp_bin().is_file() {
+        ctx.inconclusive(format!(
+            "trust-lsp binary not found at {} (build it: cd /repo && CARGO_TARGET_DIR=/verif/harness/target-repo cargo build --offline -p trust-lsp --bin trust-lsp)",
+            lspc::lsp_bin().display()
+        ));
+        return;
+    }
+    let scratch = std::env::temp_dir().join(format!("tpv-c15-{}-w{}", std::process::id(), ctx.worker));
+    let _ = std::fs::remove_dir_all(&scratch);
+    let roots = match prepare_scratch(&scratch) {
+        Ok(r) => r,
+        Err(e) => {
+            ctx.inconclusive(format!("cannot prepare scratch workspace {}: {e}", scratch.display()));
+            return;
+        }
+    };
+    let env = Env {
+        pool: Pool::new(start_opts(&format!("c15-w{}", ctx.worker), &roots)),
+        scratch: scratch.clone(),
+        worker: ctx.worker,
+        counter: Cell::new(0),
+        f20_open: ctx.is_open(F20_KEY),
+        wrap_open: ctx.is_open(WRAP_KEY),
+        lexkind_open: ctx.is_open(LEXKIND_KEY),
+        web: RefCell::new(None),
+    };
+
+    // the vendor profiles must be in force before anything is judged
+    {
+        let probe_case = Case {
+            text: "PROGRAM P\nx := 1;\nEND_PROGRAM\n".into(),
+            cfg: Cfg { tab_size: 4, insert_spaces: true, settings: None, profile: 2 },
+            ranges: vec![],
+            ontype: vec![],
+            class: "probe".into(),
+        };
+        let uri = format!("file://{}/probe.st", profile_dir(&scratch, 2).display());
+        match env.pool.with(|s| observe(s, &uri, &probe_case)) {
+            Ok(obs) => {
+                let ok = apply_edits(&probe_case.text, &obs.full, "formatting")
+                    .map(|(t, _)| t.to_ascii_lowercase().contains("x:=1;"))
+                    .unwrap_or(false);
+                if !ok {
+                    ctx.inconclusive("the scratch workspace's vendor profile (siemens: compact spacing) is not in force in the server; configuration did not load".to_string());
+                    env.pool.shutdown();
+                    let _ = std::fs::remove_dir_all(&scratch);
+                    return;
+                }
+            }
+            Err(LspError::Crashed(m)) => {
+                ctx.violation("lsp", &serde_json::to_value(&probe_case).unwrap_or(J::Null), &format!("server crashed on the configuration probe: {m}"));
+            }
+            Err(e) => {
+                ctx.inconclusive(format!("configuration probe failed: {e}"));
+                env.pool.shutdown();
+                let _ = std::fs::remove_dir_all(&scratch);
+                return;
+            }
+        }
+    }
+
+    ctx.search(
+        "lsp",
+        tape_strategy(400).prop_map(|t| gen_case(&t)),
+        tier.pick(10_000, 200_000),
+        |case: &Case, probe| check_lsp(case, probe, &env),
+    );
+    ctx.search(
+        "webide",
+        tape_strategy(300).prop_map(|t| gen_case(&t).text),
+        tier.pick(10_000, 200_000),
+        |text: &String, probe| check_web(text, probe, &env),
+    );
+
+    if let Some(why) = env.pool.infra() {
+        ctx.inconclusive(format!("LSP infrastructure failure, remaining cases skipped: {why}"));
+    }
+    env.pool.shutdown();
+    *env.web.borrow_mut() = None;
+    let _ = std::fs::remove_dir_all(&scratch);
 }
